@@ -178,6 +178,11 @@ def einsum(subscripts, *operands):
         else:
             conv_operands.append(op)
 
+    if '->' not in subscripts:
+        # implicit mode of numpy.einsum: the output carries the indices that appear once, in alphabetical order
+        letters = [c for c in subscripts if c.isalpha()]
+        subscripts = subscripts + '->' + ''.join(sorted(c for c in set(letters) if letters.count(c) == 1))
+
     tmp_subscripts = ','.join([o + '...' for o in subscripts.split(',')])
     extended_subscripts = '->'.join([o + '...' for o in tmp_subscripts.split('->')[:-1]] + [tmp_subscripts.split('->')[-1]])
     einsum_path = np.einsum_path(extended_subscripts, *conv_operands, optimize='optimal')[0]
